@@ -16,7 +16,12 @@ PROP = dict(
                    "path wins (same side condition), every path a configured loader supplies and every path visible before is visible, a loader "
                    "of any class added to a live Configure is loaded by the next Initialize (C15_reinit_last_wins_partial, "
                    "C15_initialize_never_drops, C15_late_source_is_loaded); the regenerated source of configure.loadConfigure / Initialize is "
-                   "that loop on every call (C15_code_loadConfigure, C15_code_Initialize). The model (viper's merge rule, the "
+                   "that loop on every call (C15_code_loadConfigure, C15_code_Initialize). Several Apps in one process with options registered "
+                   "through app.Settings (runApp / runProc): the registered options are not used up — every App of a history is started with "
+                   "everything registered before it, however many Apps were started earlier (C15_history_splits, C15_every_app_gets_registered) — "
+                   "and a loader registered with an add-type option is configured in, and loaded by, every such App: all paths of its document "
+                   "are visible there (C15_registered_sources_configured, C15_registered_source_is_loaded; code tie "
+                   "C15_code_Run_applies_global_options). The model (viper's merge rule, the "
                    "SortOrderedComponents partition, the option fold, the loadConfigure loop) is tied to real app.NewApp().Run(...) + "
                    "App.Get (and, for histories, further options applied to the running App / calls on a bare configure.Configure, each "
                    "followed by Initialize and a read of every path) on generated source sets every run.",
@@ -61,7 +66,20 @@ PROP = dict(
              "become `_`): names of its own (A_B, K, M2, JAVA_HOME_MIN_VERSION: set to a value of their own, 91%) and ordinary ones (PATH, HOME, USER, LANG, JAVA_HOME, …: value `*` = as the process has "
              "it, `x` when it has none; 80%), on leaves (89%) and on sections (62%), sometimes one that collides with nothing; every path is read as before.  Oracle config-env-leak: the same line is run a second "
              "time with these variables ABSENT from the environment and must read the same thing at every path after every Initialize (the effective configuration is the merge of the loader outputs; the "
-             "environment is no loader); all other oracles are evaluated on the run WITH the variables",
+             "environment is no loader); all other oracles are evaluated on the run WITH the variables; "
+             "ninth round, again from fresh forks after all lines above: (a) n/25 lines (tag pipe; 80 in quick) and 7 corpus lines in which ONE of the sources is a loader.NewFileLoader "
+             "(about one in seven through app.SetConfig) on a NAMED PIPE (loader kind `n`): the harness makes the pipe with mkfifo in its own scratch directory under os.TempDir, a goroutine "
+             "opens it for writing, writes the document once and closes (so the reader meets the end of the input after exactly the document's bytes; an `E` pipe delivers nothing), the start "
+             "runs under a 20 s watchdog (signature config-hang) and the pipe is released and removed after the scenario; a pipe delivers once, so such a line has one Initialize, no second "
+             "loader on the same path and no `EV` prefix; the source set is one of the ordinary ones (cfgGenCase) in which a file or a raw / priority / ordered loader that is read once became the "
+             "pipe, so it stands next to raw / regular-file / argument sources and the unchanged oracles (source-lost, add-discards, last-wins, phantom-key) judge it as the file loader it is; "
+             "(b) n/50 lines, at most 400 (tag proc; 40 in quick) and 5 corpus lines are PROCESS HISTORIES (scenario `GS opt* ((GS|NA) opt*)*`): 1-2 sources registered through app.Settings "
+             "(AddConfigLoader / SetConfig(file) / Configure.AddLoaders; raw, file, args, priority, ordered) and 2-4 Apps started one after the other, each with 0-3 sources of its own (now and then "
+             "through SetConfigLoader), one history in three with a further registration between two Apps; all documents over the same six names; every path is read from every App. app.Settings "
+             "appends to a package-level list that is never cleared, so every history runs in a CHILD PROCESS of its own (the harness binary re-executed with the hidden sub-command configchild "
+             "and that one line, 120 s limit, 20 s per start; the child evaluates the oracles) — replay does the same. Oracles gs-source-lost / gs-add-discards / gs-last-wins / gs-phantom-key: "
+             "the property on every App, its configured sources being the registered ones and its own; the property does not say whether a registered source counts as added before or after "
+             "the App's own options, so both readings are evaluated and only a verdict that fails under both is a failure",
         trusted_base=COMMON_TB + ["spf13/viper v1.19.0 merge, key lower-casing, Get and AllSettings as modelled in Ioc.Config (validated by the correspondence)",
                                   "yaml.v3 parsing of the generated documents; go-kid/properties + strconv2 for ArgsLoader values",
                                   "Go's sort.Slice is an insertion sort (stable) below 13 elements, as modelled by sortByKey; on 13 and more elements it returns an "
@@ -78,6 +96,10 @@ PROP = dict(
                      "last Initialize of the line (the config sub-harness runs its cases one after the other)",
                      "`EV` lines: the model has no environment (its driver checks the form of the prefix and drops it): what the loaders wrote is the whole configuration; the config sub-harness runs its "
                      "cases one after the other, the variables exist only between the start of the scenario and its last read (twice: set, then removed), then the environment is as it was",
+                     "named pipes: a pipe is read at most once per scenario (it delivers once); what a source supplies is what can be read from it up to the end of the input — the writer has closed "
+                     "by then —, not what the file system reports as its size; Linux FIFO semantics (open for reading and open for writing wait for each other, O_RDWR never blocks)",
+                     "process histories: no SetConfigure among the registered options (ONE Configure object shared by all Apps of a process is not modelled), no named pipe, no command line; "
+                     "nothing is demanded about the relative order of a registered and an own none-ordered loader or about an own set-type option removing a registered source (either reading passes)",
                      "null is a value: a later null hides an earlier value (viper.Get returns nil), counted as 'last wins'",
                      "histories: the binder has no reset, so a key that only a source removed by a later SetLoaders / SetConfigLoader supplied stays "
                      "visible after the next Initialize (modelled; the property speaks about configured sources, the oracle demands nothing "
